@@ -267,7 +267,7 @@ func scenarioStart(c *hlib.RunCtx) *hlib.Violation {
 	var desc []string
 	for i := 0; i < n; i++ {
 		p := s.NewProc(fmt.Sprintf("app%d", i), nil)
-		marker := []string{"", "", "", "1", "2", "junk"}[t.Draw(6)]
+		marker := []string{"", "1", "2", "junk", "0", "3", "01", "1 ", "true", "11"}[t.Biased(10, 1, 2)]
 		if marker != "" {
 			p.Env[telemetryChildVar] = marker
 			if t.Bool(1, 2) {
@@ -279,6 +279,11 @@ func scenarioStart(c *hlib.RunCtx) *hlib.Violation {
 			if t.Bool(1, 2) {
 				p.Env[telemetryUploadVar] = ""
 			}
+		} else if t.Bool(1, 6) {
+			// an ordinary application that inherited the upload variable alone
+			// (started from a shell or a tool that had it set)
+			p.Env[telemetryUploadVar] = "1"
+			s.Probe("inherited-upload-variable")
 		}
 		st := &starter{cfg: Config{ReportCrashes: t.Bool(1, 2), Upload: t.Bool(2, 3), TelemetryDir: tele, UploadURL: "http://telemetry.sim/upload"}, marker: marker, tainted: marker != ""}
 		st.viaMaybe = t.Bool(1, 3)
